@@ -63,7 +63,7 @@ def build():
     FROZEN = ['BATCHES == old(evolver._evolve_app_task_state)["batches"]' if False else 'batches == BATCHES',
               'evolver._evolve_app_task_state == old(evolver._evolve_app_task_state)']
     w.contract(
-        'EvolveAppTask.execute_tasks', module=TASK, serves=['C14', 'C07', 'C17'],
+        'EvolveAppTask.execute_tasks', module=TASK, serves=['C14', 'C07', 'C17', 'C08'],
         params={'cls': None, 'evolver': K.Ref('Evolver'), 'tasks': K.Seq(TASKR), 'kwargs': None}, kwarg='kwargs',
         requires=['len(executed) == 0',
                   "'batches' in evolver._evolve_app_task_state and 'full_migration_plan' in evolver._evolve_app_task_state and "
@@ -87,18 +87,22 @@ def build():
         invariants={
             1: LoopInv('for batch_info in batches:', index='bi', clauses=[
                 'batches == BATCHES',
+                # a task is only ever executed with the (non-empty) SQL its batch holds for it - never with "no SQL",
+                # which execute() would read as "all of the task's SQL"
+                'forall(range(len(executed)), lambda k: len(sel(executed, k)[1]) > 0)',
                 # every due evolution entry of the batches handled so far was executed
                 'forall(range(bi), lambda b: %s)' % BATCH_DONE.format(b='b')]),
             2: LoopInv('for task, task_info in six.iteritems(task_evolutions):', index='xi', clauses=[
                 'batches == BATCHES', 'bi < len(BATCHES)', 'batch_info == sel(BATCHES, bi)',
                 "'task_evolutions' in batch_info", "task_evolutions == batch_info['task_evolutions']",
-                "batch_type == 'evolutions'", "batch_info['type'] == 'evolutions'",
+                "batch_type == 'evolutions'", "batch_info['type'] == 'evolutions'", 'forall(range(len(executed)), lambda k: len(sel(executed, k)[1]) > 0)',
                 'forall(range(bi), lambda b: %s)' % BATCH_DONE.format(b='b'),
                 'forall(range(xi), lambda x: implies(%s, %s))' % (ENTRY_DUE.format(b='bi', x='x'), RAN.format(b='bi', x='x'))]),
         },
         ensures=[
             # no due evolution SQL is skipped: what the batches list (and what --sql previews) gets executed
-            'forall(range(len(BATCHES)), lambda b: %s)' % BATCH_DONE.format(b='b')],
+            'forall(range(len(BATCHES)), lambda b: %s)' % BATCH_DONE.format(b='b'),
+            'forall(range(len(executed)), lambda k: len(sel(executed, k)[1]) > 0)'],
         note='migration-related statements abstracted to an opaque step (C10 is not applicable); the evolution batches, '
              'the executor context and the per-task loop are analysed as written')
     w.stub('new_models_of', params={'tasks': K.Seq(TASKR)}, returns=K.Seq(K.Atom('ModelCls')), pure=True)
